@@ -21,7 +21,6 @@ from .. import effects
 from .. import cfg as cfgmod
 
 ROOT = 'pycdlib.PyCdlib._reshuffle_extents'
-MARKERS = ('_finish_add', '_finish_remove', '_reshuffle_extents')
 NOT_DERIVED = {('headervd.PrimaryOrSupplementaryVD', 'space_size')}
 
 
@@ -187,6 +186,9 @@ def flag(ctx):
     Rreads -= D
     obs = []
     n = 0
+    markers, partial_markers = _marker_names(ctx)
+    if len(markers | partial_markers) < 2:
+        raise AnalysisError('anchor-vanished: methods that mark the metadata stale (%d)' % len(markers | partial_markers))
     from .. import vbm
     eng = vbm.VBM(ctx)
     eng._compute_returns_fresh(list(ctx.m.pkg_functions()))
@@ -216,7 +218,7 @@ def flag(ctx):
         def marks(node):
             for e in cfgmod.node_exprs(node):
                 for sub in ast.walk(e):
-                    if isinstance(sub, ast.Call) and isinstance(sub.func, ast.Attribute) and sub.func.attr in MARKERS:
+                    if isinstance(sub, ast.Call) and isinstance(sub.func, ast.Attribute) and (sub.func.attr in markers or sub.func.attr == '_reshuffle_extents'):
                         return True
                     if isinstance(sub, ast.Call):
                         # a callee that itself always marks (e.g. add_file -> add_fp)
@@ -238,30 +240,63 @@ def flag(ctx):
     if n < 10:
         raise AnalysisError('anchor-vanished: public methods writing state read by the pass (%d)' % n)
     # the marker functions themselves: every normal exit has run the pass or set the stale flag
-    for mname in ('_finish_add', '_finish_remove'):
-        mf = pc.methods.get(mname)
-        if mf is None:
-            raise AnalysisError('anchor-vanished: PyCdlib.%s' % mname)
-        g = ctx.cfg(mf)
-
-        def tr(node, st, lab):
-            if lab in ('exc', 'callexc'):
-                return st
-            for e in cfgmod.node_exprs(node):
-                for sub in ast.walk(e):
-                    if isinstance(sub, ast.Call) and isinstance(sub.func, ast.Attribute) and sub.func.attr == '_reshuffle_extents':
-                        return True
-            stn = node.stmt
-            if node.kind == 'stmt' and isinstance(stn, ast.Assign) and any(norm(t) == 'self._needs_reshuffle' for t in stn.targets) and \
-                    isinstance(stn.value, ast.Constant) and stn.value.value is True:
-                return True
-            return st
-        IN = g.forward(False, tr, lambda a, b: a and b)
-        ok = bool(IN.get(g.exit.id))
+    for mname in sorted(markers | partial_markers):
+        mf = pc.methods[mname]
+        ok = mname in markers
         obs.append(Ob('SA-RESHUFFLE.flag', 'pycdlib.PyCdlib.%s|marks on every exit' % mname, ok, ctx.loc(mf, mf.node),
-                      '' if ok else '%s is what every edit relies on to invalidate the derived metadata, but some normal exit neither runs the recomputation pass nor sets '
+                      '' if ok else '%s is what edits rely on to invalidate the derived metadata, but some normal exit neither runs the recomputation pass nor sets '
                       '_needs_reshuffle: an edit that takes that exit is mastered with the layout computed before it' % mname))
     return obs
+
+
+def _marker_names(ctx):
+    """names of PyCdlib methods every normal exit of which has run the pass or set the stale flag
+    (computed, not listed: renaming _finish_add does not blind the rule); second result: methods that do so
+    on some normal exit only."""
+    c = getattr(ctx, '_marker_names', None)
+    if c is not None:
+        return c
+    pc = ctx.cls('pycdlib.PyCdlib')
+    total, partial = set(), set()
+    for _ in range(3):
+        for name, mf in pc.methods.items():
+            if name == '_reshuffle_extents' or not name.startswith('_') or name.startswith('__'):
+                continue
+            g = ctx.cfg(mf)
+
+            def hit(node):
+                for e in cfgmod.node_exprs(node):
+                    for sub in ast.walk(e):
+                        if isinstance(sub, ast.Call) and isinstance(sub.func, ast.Attribute) and \
+                                (sub.func.attr == '_reshuffle_extents' or sub.func.attr in total):
+                            return True
+                stn = node.stmt
+                return node.kind == 'stmt' and isinstance(stn, ast.Assign) and any(norm(t) == 'self._needs_reshuffle' for t in stn.targets) and \
+                    isinstance(stn.value, ast.Constant) and stn.value.value is True
+
+            def sets_flag(node):
+                stn = node.stmt
+                return node.kind == 'stmt' and isinstance(stn, ast.Assign) and any(norm(t) == 'self._needs_reshuffle' for t in stn.targets) and \
+                    isinstance(stn.value, ast.Constant) and stn.value.value is True
+            # candidates are the functions that set the flag themselves (or delegate to one that always does);
+            # functions that merely *consume* it (`if self._needs_reshuffle: self._reshuffle_extents()`) are not markers
+            delegates = any(isinstance(sub, ast.Call) and isinstance(sub.func, ast.Attribute) and sub.func.attr in total
+                            for n in g.nodes for e in cfgmod.node_exprs(n) for sub in ast.walk(e))
+            if not any(sets_flag(n) for n in g.nodes) and not delegates:
+                continue
+
+            def tr(node, st, lab):
+                if lab in ('exc', 'callexc'):
+                    return st
+                return True if hit(node) else st
+            IN = g.forward(False, tr, lambda a, b: a and b)
+            if IN.get(g.exit.id):
+                total.add(name)
+                partial.discard(name)
+            else:
+                partial.add(name)
+    ctx._marker_names = (total, partial)
+    return ctx._marker_names
 
 
 def _always_marks(ctx, fi, depth=0):
@@ -272,7 +307,7 @@ def _always_marks(ctx, fi, depth=0):
     def transfer(node, st, lab):
         for e in cfgmod.node_exprs(node):
             for sub in ast.walk(e):
-                if isinstance(sub, ast.Call) and isinstance(sub.func, ast.Attribute) and sub.func.attr in MARKERS:
+                if isinstance(sub, ast.Call) and isinstance(sub.func, ast.Attribute) and (sub.func.attr in _marker_names(ctx)[0] or sub.func.attr == '_reshuffle_extents'):
                     return True
         return st
     IN = g.forward(False, transfer, lambda a, b: a and b)
